@@ -3,12 +3,19 @@
 pub mod alloc;
 pub mod common;
 
+pub mod mempipe;
+pub mod noisekit;
+
+pub mod c01;
+pub mod c02;
 pub mod c18;
 
 use common::{Ctx, Report};
 
 pub fn run_property(prop: &str, ctx: &Ctx) -> Option<Report> {
     Some(match prop {
+        "C01" => c01::run(ctx),
+        "C02" => c02::run(ctx),
         "C18" => c18::run(ctx),
         _ => return None,
     })
